@@ -30,6 +30,8 @@ import (
 
 	"github.com/siddontang/goredis"
 	"github.com/youzan/ZanRedisDB/common"
+	"github.com/youzan/ZanRedisDB/node"
+	"github.com/youzan/ZanRedisDB/raft/raftpb"
 )
 
 var (
@@ -46,6 +48,7 @@ var (
 	snapCnt = flag.Int("snapcount", 0, "raft SnapCount of the namespace (0 = the default, no snapshot during a run)")
 	nemKind = flag.String("nemkind", "all", "all | restarts (only graceful restarts of followers, in quick succession)")
 	mixF    = flag.String("mix", "all", "all | nonidem (mostly INCR / HINCRBY / LPUSH / LPOP)")
+	staleTO = flag.Duration("stalebarrier", 0, "directed scenario 'late read-index answer completes a later round' (0 = skip): the read-index round timeout of the node (5s unless changed)")
 	lossDur = flag.Duration("lossdur", 0, "directed scenario 'follower forgets acknowledged entries' (0 = skip): writes through the leader for this long")
 	partF   = flag.Bool("partitions", false, "nemesis also cuts raft links between replicas (thorough tier)")
 	minB    = flag.Int("minb", 24, "min operations per key before it is retired")
@@ -518,6 +521,10 @@ func main() {
 	setupLogging(path.Join(*outDir, "server.log"), common.LOG_INFO)
 	defer theLogger.Flush()
 
+	if *staleTO > 0 && *staleTO < 5*time.Second && *mode == "inproc" {
+		// verif-only knob: a short read-index round timeout so that the stale-barrier schedule takes ~1s
+		node.VerifSetReadIndexTimeout(*staleTO)
+	}
 	c, err := startCluster(dir, *port, *mode, *engineF)
 	if err != nil {
 		c.shutdown()
@@ -596,6 +603,9 @@ func main() {
 		for i := 0; i < *nCli; i++ {
 			tcl = append(tcl, &client{id: 50 + i, addrs: c.addrs, conns: make([]*goredis.Conn, nReplica),
 				rng: rand.New(rand.NewSource(*seed*37 + int64(i)*7919)), opTO: 6 * time.Second})
+		}
+		if *staleTO > 0 && *mode == "inproc" {
+			m.Directed = append(m.Directed, runStaleBarrier(c, w, *staleTO)...)
 		}
 		if *lossDur > 0 {
 			m.Directed = append(m.Directed, runForgetAcked(c, w, *seed, *lossDur)...)
@@ -882,6 +892,110 @@ func runForgetAcked(c *cluster, w *workload, seed int64, dur time.Duration) []ne
 		time.Sleep(100 * time.Millisecond)
 	}
 	ev(fmt.Sprintf("restart %d (old leader)", l), c.reps[l].OpenNS())
+	_, ok := c.waitSettled(30 * time.Second)
+	ev(fmt.Sprintf("settled=%v", ok), nil)
+	return evs
+}
+
+// runStaleBarrier is a fixed schedule for the read barrier behind which write commands may answer from the
+// local store (isLocalStoreCurrent): the connection leader -> F stalls (appends and read-index answers are held,
+// heartbeats pass); a shortcut write to F starts read-index round 1, whose answer is stuck; DEL k through the
+// leader is acknowledged (F still holds k); after round 1 has timed out, SETNX k through F starts round 2 and the
+// connection delivers the OLD answer of round 1 first, the rest later. The answer of an earlier round must not
+// complete the current one: SETNX must not be answered 0 from F's stale store.
+func runStaleBarrier(c *cluster, w *workload, roundTO time.Duration) []nemEvent {
+	var evs []nemEvent
+	ev := func(what string, err error) {
+		e := nemEvent{At: nowUs(), What: what}
+		if err != nil {
+			e.Err = err.Error()
+		}
+		evs = append(evs, e)
+	}
+	l := c.waitLeader(10 * time.Second)
+	if l < 0 {
+		ev("stale-barrier skipped: no leader", nil)
+		return evs
+	}
+	f := (l + 1) % nReplica
+	g := c.reps[f].Gate()
+	if g == nil {
+		ev("stale-barrier skipped: no gate", nil)
+		return evs
+	}
+	mk := func(id int) *client {
+		return &client{id: id, addrs: c.addrs, conns: make([]*goredis.Conn, nReplica), rng: rand.New(rand.NewSource(int64(id))), opTO: 12 * time.Second}
+	}
+	lc := mk(90)
+	k, other := w.newObject("kv"), w.newObject("kv")
+	do := func(cl *client, target int, o *object, op string) opRec {
+		rec, sent := cl.do(target, o.key, op)
+		if sent {
+			w.record(o, rec)
+		}
+		return rec
+	}
+	if rec := do(lc, l, k, fmt.Sprintf("set:%d", w.uniqL())); rec.Ret < 0 {
+		ev("stale-barrier skipped: SET failed", nil)
+		return evs
+	}
+	c.waitSettled(5 * time.Second)
+	g.SetHold(uint64(l+1), []raftpb.MessageType{raftpb.MsgApp, raftpb.MsgReadIndexResp})
+	ev(fmt.Sprintf("hold %d->%d (MsgApp, MsgReadIndexResp)", l, f), nil)
+	release := func() {
+		g.SetHold(0, nil)
+		g.Release(0, true, 0)
+	}
+	var wg sync.WaitGroup
+	wg.Add(1)
+	go func() { // round 1
+		defer wg.Done()
+		do(mk(91), f, other, fmt.Sprintf("setnx:%d", w.uniqL()))
+	}()
+	waitHeld := func(n int) bool {
+		dl := time.Now().Add(10 * time.Second)
+		for g.Held(raftpb.MsgReadIndexResp) < n {
+			if time.Now().After(dl) {
+				return false
+			}
+			time.Sleep(20 * time.Millisecond)
+		}
+		return true
+	}
+	if !waitHeld(1) {
+		release()
+		wg.Wait()
+		ev("stale-barrier skipped: round 1 did not start", nil)
+		return evs
+	}
+	round1 := time.Now()
+	do(lc, l, k, "del")
+	if c.leader() != l {
+		release()
+		wg.Wait()
+		ev("stale-barrier skipped: leadership moved", nil)
+		return evs
+	}
+	time.Sleep(time.Until(round1.Add(roundTO + roundTO*3/10 + 200*time.Millisecond)))
+	done := make(chan struct{})
+	go func() { // round 2
+		do(mk(92), f, k, fmt.Sprintf("setnx:%d", w.uniqL()))
+		close(done)
+	}()
+	started := waitHeld(2)
+	n := g.Release(raftpb.MsgReadIndexResp, false, 1)
+	ev(fmt.Sprintf("round 2 started=%v; old read-index answer delivered (%d)", started, n), nil)
+	select {
+	case <-done:
+	case <-time.After(1500 * time.Millisecond):
+	}
+	release()
+	ev("connection recovered", nil)
+	<-done
+	wg.Wait()
+	for i := range lc.conns {
+		lc.drop(i)
+	}
 	_, ok := c.waitSettled(30 * time.Second)
 	ev(fmt.Sprintf("settled=%v", ok), nil)
 	return evs
